@@ -25,6 +25,8 @@ def run(ctx, sess):
     P, L = setup(sess)
     exc = exceptions('C07')
     ctx.rule('C07.1', 'flush ticket is published only after the file was synced: jls_wr_flush (which reaches fsync) dominates every store to flush_processed_id in the consumer')
+    ctx.rule('C07.12', 'an accepted message cannot vanish (close would wait for it forever, or return with it unwritten): the ring never reports a full queue as empty (shared with C06.10 / C08.4)')
+    ctx.rule('C07.13', 'timed waits end under interruptions: a nanosleep that is retried in a loop hands the remaining time back as the next request (its second argument is the object of its first), so a stream of signals cannot restart the full duration for ever')
     ctx.rule('C07.11', 'a flush covers everything submitted before it: every successful return of jls_twr_flush follows a FLUSH message queued by this very call, and the ticket it waits for is a fresh one (send counter + 1) on every path - never a ticket taken by another caller earlier')
     ctx.rule('C07.2', 'jls_twr_flush returns 0 only through the edge on which flush_processed_id has reached the ticket; the deadline edge returns non-zero')
     ctx.rule('C07.3', 'drain: the consumer\'s inner loop is left only on an empty queue, and `quit` is tested only by the outer loop')
@@ -128,6 +130,9 @@ def run(ctx, sess):
     # ---- C07.3
     drain_rule(ctx, P, 'C07.3')
     own_flush_rule(ctx, P)
+    from .c10c import r15
+    r15(ctx, P, 'C07.12')
+    sleep_rule(ctx, P)
 
     # ---- C07.4
     cl = P.fn('jls_twr_close')
@@ -380,3 +385,30 @@ def own_flush_rule(ctx, P):
                        '%s = flush_send_id + 1 on every path' % x0['name'] if (not stale and defs) else
                        'on some path the ticket is %s: the caller waits for a flush that was requested before its own messages' % (stale or ['undefined'])[0])
     ctx.floor('ticket compares in jls_twr_flush', n, 1)
+
+
+
+def sleep_rule(ctx, P):
+    n = 0
+    for fn in P.all_functions():
+        if fn.file not in ('src/backend_posix.c', 'src/threaded_writer.c'):
+            continue
+        for c in fn.calls(('nanosleep', 'clock_nanosleep')):
+            n += 1
+            ctx.saw(fn, 1)
+            # retried?  the call's block lies on a cycle
+            seen, work = set(), [s_ for s_, _ in c.block.succs]
+            while work:
+                x = work.pop()
+                if x.id in seen:
+                    continue
+                seen.add(x.id)
+                work.extend(s_ for s_, _ in x.succs)
+            retried = c.block.id in seen
+            req = show(strip_casts(c.args[-2])) if len(c.args) >= 2 else '?'
+            rem = show(strip_casts(c.args[-1])) if len(c.args) >= 2 else '?'
+            ok = (not retried) or (req == rem and const_of(strip_casts(c.args[-1])) is None)
+            ctx.ob('C07.13', ok, fn.name, '%s(%s, %s)' % (c.callee, req, rem), c.where(),
+                   ('retried with the remaining time' if retried else 'not retried') if ok else
+                   'the sleep is retried after EINTR with the full duration again: a thread that receives signals more often than the duration never leaves %s, and jls_twr_flush / a blocked send never re-check their deadline' % fn.name)
+    ctx.floor('nanosleep sites', n, 1)
